@@ -232,6 +232,31 @@ fn kind_name(p: &PayloadSpec) -> &'static str {
 fn run_drop(c: &DropCase, obs: &mut Obs) -> CheckResult {
     let filters = build_filters(&c.filters)?;
     let file = SlurmFile::new(filters.clone(), LocallyAddedAssertions::default());
+    // The same filters reached through the other public ways of obtaining a
+    // file: filters assigned to the public field of a file created without
+    // them (so that whatever `new` derived from its arguments is stale), and
+    // files parsed from JSON declaring either SLURM version. The drop decision
+    // is a function of the filters only.
+    let mut variants: Vec<(&'static str, SlurmFile)> = Vec::new();
+    {
+        let mut f = SlurmFile::new(ValidationOutputFilters::new(Vec::new(), Vec::new()), LocallyAddedAssertions::default());
+        f.filters = filters.clone();
+        variants.push(("field-assigned", f));
+        let mut f = SlurmFile::default();
+        f.filters = filters.clone();
+        variants.push(("default+field-assigned", f));
+        if let Ok(mut v) = serde_json::to_value(&file) {
+            for ver in [1u64, 2] {
+                v["slurmVersion"] = serde_json::json!(ver);
+                if let Ok(parsed) = serde_json::from_value::<SlurmFile>(v.clone()) {
+                    if parsed.filters == filters {
+                        variants.push((if ver == 1 { "parsed-as-v1" } else { "parsed-as-v2" }, parsed));
+                    }
+                }
+            }
+        }
+    }
+    obs.label_if(variants.len() >= 3, "parsed-variant");
     let kinds = (!c.filters.prefix.is_empty()) as u8 + (!c.filters.bgpsec.is_empty()) as u8
         + c.filters.aspa.as_ref().is_some_and(|a| !a.is_empty()) as u8;
     obs.label_if(c.filters.aspa.is_none(), "aspa-none");
@@ -250,6 +275,12 @@ fn run_drop(c: &DropCase, obs: &mut Obs) -> CheckResult {
             "SlurmFile::drop_payload({:?}) = {}, reference says {} for filters {:?}", p, got, exp, c.filters
         );
         ensure!(filters.drop_payload(&payload) == exp, "ValidationOutputFilters::drop_payload({:?}) differs from the file's", p);
+        for (how, f) in &variants {
+            ensure!(
+                f.drop_payload(&payload) == exp,
+                "SlurmFile ({}) drop_payload({:?}) = {}, reference says {} for filters {:?}", how, p, !exp, exp, c.filters
+            );
+        }
         // each filter on its own
         for (fs, f) in c.filters.prefix.iter().zip(&filters.prefix) {
             let e = pf_matches(fs, p);
